@@ -44,7 +44,7 @@ Lemma skipn_app_len : forall {A} (a b : list A), skipn (length a) (a ++ b) = b.
 Proof. induction a as [|x a IH]; intros b; cbn; [reflexivity | apply IH]. Qed.
 
 (* ---------------- the last SetLevel ---------------- *)
-Definition is_set (o : cop) : bool := match o with CSetLevel _ => true | CWith _ => false end.
+Definition is_set (o : cop) : bool := match o with CSetLevel _ => true | _ => false end.
 
 Lemma last_level_app : forall a b acc, last_level (a ++ b) acc = last_level b (last_level a acc).
 Proof.
@@ -55,7 +55,7 @@ Lemma last_level_noset : forall p acc, forallb (fun o => negb (is_set o)) p = tr
   last_level p acc = acc.
 Proof.
   induction p as [|o p IH]; intros acc H; cbn in *; [reflexivity|].
-  apply andb_true_iff in H as [Ho Hp]. destruct o; cbn in Ho; [apply IH; exact Hp | discriminate].
+  apply andb_true_iff in H as [Ho Hp]. destruct o; cbn in Ho; [apply IH; exact Hp | discriminate | apply IH; exact Hp].
 Qed.
 
 Lemma last_level_none : forall p, last_level p None = None ->
@@ -64,9 +64,10 @@ Proof.
   assert (G : forall p acc, last_level p acc = None ->
             acc = None /\ forallb (fun o => negb (is_set o)) p = true).
   { induction p as [|o p IH]; intros acc H; cbn in *; [split; [exact H | reflexivity]|].
-    destruct o as [fs | l].
+    destruct o as [fs | l | fs].
     - destruct (IH _ H) as [Ha Hp]. split; [exact Ha | exact Hp].
-    - destruct (IH _ H) as [Ha _]. discriminate. }
+    - destruct (IH _ H) as [Ha _]. discriminate.
+    - destruct (IH _ H) as [Ha Hp]. split; [exact Ha | exact Hp]. }
   intros p H. apply (G p None H).
 Qed.
 
@@ -74,9 +75,10 @@ Lemma last_level_in : forall p acc l, last_level p acc = Some l ->
   acc = Some l \/ In (CSetLevel l) p.
 Proof.
   induction p as [|o p IH]; intros acc l H; cbn in *; [left; exact H|].
-  destruct o as [fs | l'].
+  destruct o as [fs | l' | fs].
   - destruct (IH _ _ H) as [Ha | Hi]; [left; exact Ha | right; right; exact Hi].
   - destruct (IH _ _ H) as [Ha | Hi]; [right; left; congruence | right; right; exact Hi].
+  - destruct (IH _ _ H) as [Ha | Hi]; [left; exact Ha | right; right; exact Hi].
 Qed.
 
 Lemma lin_level_last : forall T acc l0,
@@ -84,7 +86,7 @@ Lemma lin_level_last : forall T acc l0,
   = lin_level T (match acc with Some l => l | None => l0 end).
 Proof.
   induction T as [|o T IH]; intros acc l0; cbn; [reflexivity|].
-  destruct o as [fs | l]; rewrite IH; reflexivity.
+  destruct o as [fs | l | fs]; rewrite IH; reflexivity.
 Qed.
 
 Lemma noset_perm : forall a b, Permutation a b ->
@@ -140,7 +142,7 @@ Lemma last_set_thread : forall tr l, last_level (untag cop tr) None = Some l ->
 Proof.
   intros tr. induction tr as [|[s o] tr IH] using rev_ind; intros l H; [discriminate|].
   unfold LogConc.untag in H. rewrite map_app, last_level_app in H. cbn in H.
-  destruct o as [fs | l'].
+  destruct o as [fs | l' | fs].
   - (* the last element adds fields: the last SetLevel is earlier *)
     destruct (IH l H) as [t Ht]. exists t.
     rewrite ops_of_app, last_level_app, Ht.
@@ -149,6 +151,10 @@ Proof.
     injection H as <-. exists s.
     rewrite ops_of_app, last_level_app. unfold LogConc.ops_of at 2. cbn.
     rewrite Nat.eqb_refl. reflexivity.
+  - (* the last element is a ChildLogger: the last SetLevel is earlier *)
+    destruct (IH l H) as [t Ht]. exists t.
+    rewrite ops_of_app, last_level_app, Ht.
+    apply last_level_noset. unfold LogConc.ops_of. cbn. destruct (s =? t)%nat; reflexivity.
 Qed.
 
 (* the level after all operations in linearisation order is one the judge admits *)
@@ -182,6 +188,50 @@ Proof.
   destruct Hin as [<- | []]. exact Hc.
 Qed.
 
+(* ---------------- program order of the fields ---------------- *)
+Lemma is_subseq_nil : forall b, is_subseq [] b = true.
+Proof. destruct b; reflexivity. Qed.
+
+(* greedy matching is complete: an extra element in front of b never hurts, and what matches
+   with its head matches without it *)
+Lemma is_subseq_both : forall b,
+  (forall a y, is_subseq a b = true -> is_subseq a (y :: b) = true)
+  /\ (forall x a, is_subseq (x :: a) b = true -> is_subseq a b = true).
+Proof.
+  induction b as [|w b [IH1 IH2]].
+  - split.
+    + intros [|x a] y H; [reflexivity | discriminate H].
+    + intros x a H. discriminate H.
+  - assert (P2 : forall x a, is_subseq (x :: a) (w :: b) = true -> is_subseq a (w :: b) = true).
+    { intros x a H. cbn [is_subseq] in H. destruct (N.eqb x w).
+      - apply IH1. exact H.
+      - apply IH1. apply (IH2 x). exact H. }
+    split; [|exact P2].
+    intros [|x a] y H; [reflexivity|]. cbn [is_subseq]. destruct (N.eqb x y).
+    + apply (P2 x). exact H.
+    + exact H.
+Qed.
+
+Lemma is_subseq_cons_r : forall a b y, is_subseq a b = true -> is_subseq a (y :: b) = true.
+Proof. intros a b y. apply (proj1 (is_subseq_both b)). Qed.
+
+Lemma is_subseq_app_r : forall x a b, is_subseq a b = true -> is_subseq a (x ++ b) = true.
+Proof. induction x as [|y x IH]; intros a b H; cbn; [exact H | apply is_subseq_cons_r, IH, H]. Qed.
+
+Lemma is_subseq_app_same : forall x a b, is_subseq a b = true -> is_subseq (x ++ a) (x ++ b) = true.
+Proof. induction x as [|y x IH]; intros a b H; cbn; [exact H | rewrite N.eqb_refl; apply IH, H]. Qed.
+
+(* what one goroutine added appears, in its order, among everything that was added *)
+Lemma subseq_ops_of : forall t (tr : list (nat * cop)),
+  is_subseq (flat_map cop_fields (ops_of cop t tr)) (flat_map cop_fields (untag cop tr)) = true.
+Proof.
+  intros t tr. unfold LogConc.ops_of, LogConc.untag.
+  induction tr as [|[s o] tr IH]; cbn; [reflexivity|].
+  destruct (s =? t)%nat; cbn.
+  - apply is_subseq_app_same. exact IH.
+  - apply is_subseq_app_r. exact IH.
+Qed.
+
 (* ---------------- final_ok is implied by the theorems ---------------- *)
 Lemma sprobe_error_entry : forall fs l, l <= 2 -> hd [] (last (sprobe (fs, l)) []) = fs.
 Proof.
@@ -192,13 +242,16 @@ Qed.
 Lemma final_ok_of_abs : forall c0 progs final fs_added l,
   expand final = sprobe (cfields c0 ++ fs_added, l) ->
   Permutation fs_added (flat_map cop_fields (concat progs)) ->
+  (forall p, In p progs -> is_subseq (flat_map cop_fields p) fs_added = true) ->
   In l (final_levels c0 progs) -> l <= 2 ->
   final_ok c0 progs final = true.
 Proof.
-  intros c0 progs final fa l He Hp Hin Hl. unfold final_ok. rewrite He.
+  intros c0 progs final fa l He Hp Hsub Hin Hl. unfold final_ok. rewrite He.
   rewrite sprobe_error_entry by exact Hl.
   rewrite firstn_app_len, skipn_app_len, fields_eqb_refl, (perm_eqb_complete _ _ Hp). cbn [andb].
-  apply existsb_exists. exists l. split; [exact Hin | apply probe_eqb_refl].
+  apply andb_true_iff. split.
+  - apply forallb_forall. exact Hsub.
+  - apply existsb_exists. exists l. split; [exact Hin | apply probe_eqb_refl].
 Qed.
 
 (* for every initial logger, program set and schedule of the model: once all threads have
@@ -218,6 +271,156 @@ Proof.
                               (l := lin_level (untag cop tr) (clevel c0)).
   - rewrite He, probe_abs, Habs. reflexivity.
   - apply flat_map_perm. exact Hp.
+  - intros p Hpin. destruct (In_nth _ _ [] Hpin) as (t & _ & <-). rewrite <- (Ho t). apply subseq_ops_of.
   - exact Hin.
   - eapply final_levels_bound; eassumption.
+Qed.
+
+(* ---------------- children_ok is implied by the theorems ---------------- *)
+Lemma count_app : forall x a b, count x (a ++ b) = (count x a + count x b)%nat.
+Proof. intros x a b. induction a as [|y a IH]; cbn; [reflexivity | rewrite IH; lia]. Qed.
+
+Lemma sub_multiset_of_counts : forall a b, (forall x, (count x a <= count x b)%nat) -> sub_multiset a b = true.
+Proof.
+  intros a b H. unfold sub_multiset. apply forallb_forall. intros x _. apply Nat.leb_le. apply H.
+Qed.
+
+Lemma flat_map_app' : forall {A B} (f : A -> list B) a b, flat_map f (a ++ b) = flat_map f a ++ flat_map f b.
+Proof. intros A B f a b. induction a as [|x a IH]; cbn; [reflexivity | rewrite IH, app_assoc; reflexivity]. Qed.
+
+Lemma count_own_le : forall x t (pre : list (nat * cop)),
+  (count x (flat_map cop_fields (ops_of cop t pre)) <= count x (flat_map cop_fields (untag cop pre)))%nat.
+Proof.
+  intros x t pre. unfold LogConc.ops_of, LogConc.untag.
+  induction pre as [|[s o] pre IH]; cbn; [lia|].
+  destruct (s =? t)%nat; cbn; rewrite ?count_app; lia.
+Qed.
+
+Lemma lin_level_in : forall T l0, lin_level T l0 = l0 \/ In (CSetLevel (lin_level T l0)) T.
+Proof.
+  induction T as [|o T IH]; intros l0; cbn; [left; reflexivity|].
+  destruct o as [fs | l | fs]; cbn.
+  - destruct (IH l0) as [E | Hin]; [left; exact E | right; right; exact Hin].
+  - destruct (IH l) as [E | Hin]; [right; left; unfold lin_level in E; cbn in E |- *; f_equal; symmetry; exact E
+                                  | right; right; exact Hin].
+  - destruct (IH l0) as [E | Hin]; [left; exact E | right; right; exact Hin].
+Qed.
+
+Lemma set_levels_in : forall ops l, In (CSetLevel l) ops -> In l (set_levels ops).
+Proof.
+  intros ops l H. unfold set_levels. apply in_flat_map. exists (CSetLevel l). split; [exact H | left; reflexivity].
+Qed.
+
+Lemma in_concat_prog : forall (progs : list (list cop)) o, In o (concat progs) -> exists p, In p progs /\ In o p.
+Proof. intros progs o H. apply in_concat in H as (p & Hp & Ho). exists p. split; assumption. Qed.
+
+Lemma children_from_In : forall evs pre ti c, In (ti, c) (children_from pre evs) ->
+  exists j t fs v, nth_error evs j = Some ((t, CChild fs), v)
+    /\ ti = (t, length (ops_of cop t (pre ++ map fst (firstn j evs))))
+    /\ c = logger_with core_with v fs.
+Proof.
+  induction evs as [|[[t o] v] evs IH]; intros pre ti c H; cbn in H; [destruct H|].
+  apply in_app_or in H as [H | H].
+  - destruct o as [fs | l | fs]; cbn in H; [destruct H | destruct H |].
+    destruct H as [E | []]. injection E as <- <-.
+    exists 0%nat, t, fs, v. cbn. rewrite app_nil_r. repeat split.
+  - destruct (IH _ _ _ H) as (j & t' & fs & v' & Hn & Hti & Hc).
+    exists (S j), t', fs, v'. cbn. split; [exact Hn | split; [|exact Hc]].
+    rewrite Hti, <- app_assoc. reflexivity.
+Qed.
+
+Lemma nth_error_combine : forall {A B} (a : list A) (b : list B) j x y,
+  nth_error (combine a b) j = Some (x, y) -> nth_error a j = Some x /\ nth_error b j = Some y.
+Proof.
+  intros A B a. induction a as [|x0 a IH]; intros [|y0 b] [|j] x y H; cbn in *; try discriminate.
+  - injection H as <- <-. split; reflexivity.
+  - apply IH. exact H.
+Qed.
+
+Lemma map_fst_firstn_combine : forall {A B} (a : list A) (b : list B) j,
+  length a = length b -> map fst (firstn j (combine a b)) = firstn j a.
+Proof.
+  intros A B a. induction a as [|x a IH]; intros [|y b] [|j] H; cbn in *; try reflexivity; try discriminate.
+  f_equal. apply IH. lia.
+Qed.
+
+Lemma skipn_firstn_mid : forall (i x f : list N),
+  firstn (length (i ++ x ++ f) - length i - length f) (skipn (length i) (i ++ x ++ f)) = x.
+Proof.
+  intros i x f. rewrite skipn_app_len. rewrite !app_length.
+  replace (length i + (length x + length f) - length i - length f)%nat with (length x) by lia.
+  apply firstn_app_len.
+Qed.
+
+(* every child the model creates under any schedule passes the judge's predicate *)
+Lemma child_ok_of_model : forall c0 progs sched st tr ti c o,
+  crun (cinit c0 progs) sched = (st, tr) -> all_returned cop core st = true ->
+  clevel c0 <= 2 -> (forall p l, In p progs -> In (CSetLevel l) p -> l <= 2) ->
+  In (ti, c) (crun_children (cinit c0 progs) sched) -> expand o = probe c ->
+  child_ok c0 progs ti o = true.
+Proof.
+  intros c0 progs sched st tr ti c o Hrun Hret Hc0 Hops Hin He.
+  unfold crun_children in Hin. rewrite Hrun in Hin. cbn [snd] in Hin.
+  destruct (run_vals_spec cop core fn (cpure core_with) cident cprog cfn cop_is_read
+              cprog_shape cident_pure cread_pure c0 progs sched st tr Hrun) as (Hlen & _).
+  fold (cinit c0 progs) in Hlen. fold (crun_vals (cinit c0 progs) sched) in Hlen.
+  destruct (children_from_In _ _ _ _ Hin) as (j & t & fs & v & Hn & Hti & Hcv).
+  cbn [app] in Hti.
+  destruct (nth_error_combine _ _ _ _ _ Hn) as [Htr Hv].
+  rewrite (map_fst_firstn_combine _ _ j (eq_sym Hlen)) in Hti.
+  destruct (conc_child_sees_prefix c0 progs sched st tr j t fs Hrun Htr) as (seen & Hs & Habs & _).
+  rewrite Hv in Hs. injection Hs as <-.
+  pose proof (conc_child_program_order c0 progs sched st tr j t fs Hrun Hret Htr) as Hpo.
+  destruct (conc_linearisable c0 progs sched st tr Hrun Hret) as (Hperm & _ & _).
+  set (pre := firstn j tr) in *.
+  rewrite fold_sapply in Habs.
+  change (fst (abs c0)) with (cfields c0) in Habs. change (snd (abs c0)) with (clevel c0) in Habs.
+  set (X := flat_map cop_fields (untag cop pre)) in *.
+  set (lvl := lin_level (untag cop pre) (clevel c0)) in *.
+  assert (Hprobe : expand o = sprobe (cfields c0 ++ X ++ fs, lvl)).
+  { rewrite He, Hcv, probe_abs, abs_logger_with, Habs. unfold add_fields. cbn [fst snd].
+    rewrite <- app_assoc. reflexivity. }
+  (* the level is the initial one or one some SetLevel asked for *)
+  assert (Hlvl_in : In lvl (clevel c0 :: set_levels (concat progs))).
+  { destruct (lin_level_in (untag cop pre) (clevel c0)) as [E | Hi]; [left; symmetry; exact E|].
+    right. apply set_levels_in. eapply Permutation_in; [exact Hperm|].
+    unfold LogConc.untag in *. rewrite (nth_error_split tr j _ Htr), map_app. apply in_or_app. left. exact Hi. }
+  assert (Hlvl_le : lvl <= 2).
+  { destruct Hlvl_in as [<- | Hi]; [exact Hc0|].
+    unfold set_levels in Hi. apply in_flat_map in Hi as (o' & Ho' & Hl).
+    destruct o' as [? | l' | ?]; cbn in Hl; [destruct Hl | | destruct Hl]. destruct Hl as [<- | []].
+    destruct (in_concat_prog _ _ Ho') as (p & Hp & Hop). eapply Hops; eassumption. }
+  unfold child_ok. rewrite Hti. cbn [fst snd].
+  rewrite Hpo. rewrite nth_error_app2 by lia. rewrite Nat.sub_diag. cbn [nth_error].
+  rewrite Hprobe, sprobe_error_entry by exact Hlvl_le.
+  rewrite skipn_firstn_mid, fields_eqb_refl. cbn [andb].
+  rewrite firstn_app_len.
+  apply andb_true_iff. split; [apply andb_true_iff; split|].
+  - (* nothing that was not added, nothing more often than it was added *)
+    apply sub_multiset_of_counts. intros x.
+    rewrite <- (count_perm x _ _ (flat_map_perm cop_fields _ _ Hperm)).
+    unfold X, pre. unfold LogConc.untag. rewrite (nth_error_split tr j _ Htr) at 2.
+    rewrite map_app, flat_map_app', count_app. lia.
+  - (* everything its own goroutine added before *)
+    apply sub_multiset_of_counts. intros x. apply count_own_le.
+  - apply existsb_exists. exists lvl. split; [exact Hlvl_in | apply probe_eqb_refl].
+Qed.
+
+Lemma children_ok_sound : forall c0 progs sched st tr (ch : list ((nat * nat) * cobs)),
+  crun (cinit c0 progs) sched = (st, tr) -> all_returned cop core st = true ->
+  clevel c0 <= 2 -> (forall p l, In p progs -> In (CSetLevel l) p -> l <= 2) ->
+  Forall2 (fun a b => fst a = fst b /\ expand (snd a) = probe (snd b)) ch
+          (crun_children (cinit c0 progs) sched) ->
+  children_ok c0 progs ch = true.
+Proof.
+  intros c0 progs sched st tr ch Hrun Hret Hc0 Hops HF. unfold children_ok.
+  assert (G : forall l, (forall b, In b l -> In b (crun_children (cinit c0 progs) sched)) ->
+              forall ch', Forall2 (fun a b => fst a = fst b /\ expand (snd a) = probe (snd b)) ch' l ->
+              forallb (fun x => child_ok c0 progs (fst x) (snd x)) ch' = true).
+  { intros l Hl ch' H. induction H as [|a b ch' l' (Ea & Eb) H IH]; cbn; [reflexivity|].
+    rewrite IH by (intros b' Hb'; apply Hl; right; exact Hb').
+    rewrite andb_true_r. destruct b as [ti c]. cbn in Ea, Eb. rewrite Ea.
+    apply (child_ok_of_model c0 progs sched st tr ti c (snd a) Hrun Hret Hc0 Hops);
+      [apply Hl; left; reflexivity | exact Eb]. }
+  apply (G _ (fun b Hb => Hb) ch HF).
 Qed.
